@@ -21,6 +21,9 @@ def collect_on(tier: str, prop: str) -> list[dict]:
         dict(algo="PPO", kind="discrete", dims=[4], S=7, masked=True, n=4, T=1, stack=["TimeLimit"], obs_kind="discrete"),
         dict(algo="REINFORCE", kind="box", dims=[2, 2], S=3, masked=False, n=1, T=16, stack=["TimeLimit"], obs_kind="box"),
         # hyper-parameters given as plain Python floats (as a user would), incl. the falsy value 0.0
+        # the algorithm is handed a stack whose action space differs from the base environment's: clip to the GIVEN environment's bounds
+        dict(algo="PPO", kind="box", dims=[2], S=4, masked=False, n=2, T=5, stack=["RescaleAction", "TimeLimit"], obs_kind="box"),
+        dict(algo="A2C", kind="boxscalar", dims=[4], S=4, masked=False, n=1, T=6, stack=["TimeLimit", "RescaleAction"], obs_kind="box"),
         # one-sided action boxes: the finite bound must still be enforced by the collection loop's clip
         dict(algo="PPO", kind="box", dims=[2], S=4, masked=False, n=2, T=5, stack=["TimeLimit"], obs_kind="box", box_high="inf"),
         dict(algo="A2C", kind="boxscalar", dims=[4], S=4, masked=False, n=1, T=6, stack=["TimeLimit"], obs_kind="box", box_low="-inf"),
@@ -89,6 +92,10 @@ def offpolicy(tier: str, prop: str) -> list[dict]:
         out = [c for c in collect + full if c["n"] > 1] + iid
     else:
         out = collect + full[:1] + full[3:4]
+    if prop == "C05":
+        # a learner that only implements the documented hooks and INHERITS the base-class reset / iteration
+        out = out + [dict(dqn, dims=[3], S=5, n=1, T=3, buffer=8, starts=2, batch=2, interval=2, epsilon=0.5, stack=["TimeLimit"], base_learner=True),
+                     dict(dqn, dims=[2], S=4, n=3, T=2, buffer=12, starts=3, batch=2, interval=2, epsilon=1.0, stack=["TimeLimit"], base_learner=True)]
     return out
 
 
@@ -158,6 +165,7 @@ def mask_query(tier: str, prop: str) -> list[dict]:
         # SAC policies (continuous actions, no masks): key-less = mode of the reported law, keyed log-prob = that law's log-prob
         dict(d, policy="mlp_sac", kind="box", dims=[2, 2], K=16, L=6),
         dict(d, policy="mlp_sac", kind="boxscalar", dims=[4], K=16, L=6),
+        dict(d, policy="mlp_sac", kind="box", dims=[2], K=16, L=6, box_low=0.0, box_high=1.0),   # bounds NOT symmetric about zero
         # non-default (documented) network depths: the mask must be applied whatever the head looks like
         dict(d, policy="mlp_ac", kind="discrete", dims=[3], K=32, L=8, mlp_kwargs={"action_depth": 1}),
         dict(d, policy="mlp_ac", kind="multibinary", dims=[2], K=32, L=8, mlp_kwargs={"action_depth": 1, "value_depth": 1, "feature_depth": 1}),
@@ -252,6 +260,9 @@ def train(tier: str, prop: str) -> list[dict]:
         c("PPO", "gym_peer", 1, 6, "rec1", [24]),      # Gymnasium peer with hidden RNG state behind GymToLeraxEnv
         c("DQN", "gym_peer", 1, 3, "rec1", [15], starts=4),
         c("PPO", "gym_peer", 1, 6, "video", [24], video_interval=1),   # the recorder thread must never drive the peer that is being trained on
+        # warm-up shorter than one batch (learning_starts * num_envs < batch_size): legal, two options interacting
+        c("DQN", "sim_discrete", 1, 3, "rec1", [14], starts=2),
+        c("SAC", "sim_box", 1, 2, "list", [9], starts=1),
         # non-default documented flags, trained AFTER a default instance in the same process and compared with a fresh interpreter
         c("PPO", "sim_discrete", 2, 4, "rec1", [17], p_fresh=0.5, prior_history=True, algo_kwargs={"normalize_advantages": False, "clip_value_loss": True}),
         c("PPO", "sim_dict", 2, 4, "rec1", [17], p_fresh=0.5),    # Dict observations with many string keys, often re-run in a fresh interpreter
@@ -325,6 +336,8 @@ def rollout(tier: str, prop: str) -> list[dict]:
         dict(env="Pendulum", L=300, stack=[["RescaleObservation", -5.0, 5.0], ["ClipAction"], ["TimeLimit", 50], ["ClipReward", -2.0, 0.0]]),
         dict(env="ContinuousMountainCar", L=600, stack=[["RescaleObservation", 0.0, 10.0], ["RescaleAction", -2.0, 2.0], ["Identity"], ["TimeLimit", 300]]),
         dict(env="Acrobot", L=300, stack=[["RescaleObservation", 2.0, 3.0], ["TimeLimit", 100], ["FlattenObservation"], ["Identity"]]),
+        # partly unbounded inner space: per-dimension targets that are infinite exactly where the inner bounds are
+        dict(env="CartPole", L=300, stack=[["RescaleObservation", [-1.0, "-inf", -1.0, "-inf"], [1.0, "inf", 1.0, "inf"]], ["TimeLimit", 60]]),
         # action ranges that are NOT centred on zero and not of the inner width (non-zero intercept and non-unit gradient of the affine map)
         dict(env="Pendulum", L=200, stack=[["RescaleAction", 0.0, 1.0], ["TimeLimit", 50]]),
         dict(env="ContinuousMountainCar", L=300, kwargs={"min_action": 0.0, "max_action": 1.0}, stack=[["RescaleAction", -1.0, 3.0], ["ClipAction"], ["TimeLimit", 150]]),
